@@ -948,7 +948,11 @@ func ruleStreamCommit(c *Ctx, r *Rule) {
 	// stream.commit: the only early return is under SeqID < commitSeq; the store to commitSeq takes event.SeqID
 	n := 0
 	for _, fn := range c.ModFuncs {
-		rn := recvNamed(fn)
+		top := fn
+		for top.Parent() != nil {
+			top = top.Parent() // a function literal of a stream method counts as the method
+		}
+		rn := recvNamed(top)
 		if rn == nil || !inPkg(rn, pipelinePkg) || rn.Obj().Name() != "stream" {
 			continue
 		}
@@ -957,12 +961,13 @@ func ruleStreamCommit(c *Ctx, r *Rule) {
 			if f == nil || f.Name() != "Store" || len(ci.Common().Args) < 2 {
 				continue
 			}
-			o, fl, _, ok := fieldOf(ci.Common().Args[0])
+			o, fl, sbase, ok := fieldOf(ci.Common().Args[0])
 			if !ok || !isField(o, fl, pipelinePkg, "stream", "commitSeq") {
 				continue
 			}
 			n++
-			name := c.fnName(fn)
+			name := c.fnName(top)
+			lockRoot := refOf(sbase).root
 			r.Ob(isLoadOfField(ci.Common().Args[1], pipelinePkg, "Event", "SeqID"), name+"|value", ci.Pos(), "commitSeq is advanced to the committed event's own SeqID")
 			okG := false
 			var loads []ssa.Instruction
@@ -984,7 +989,7 @@ func ruleStreamCommit(c *Ctx, r *Rule) {
 				if ld == nil {
 					continue
 				}
-				okR, whyR := c.heldInterproc(ld, lockRef{fn.Params[0], ".mu"}, 2)
+				okR, whyR := c.heldInterproc(ld, lockRef{lockRoot, ".mu"}, 2)
 				if okR {
 					isUnlock := func(in2 ssa.Instruction) bool {
 						cj, ok := in2.(ssa.CallInstruction)
@@ -1019,7 +1024,7 @@ func ruleStreamCommit(c *Ctx, r *Rule) {
 				r.Ob(okR, name+"|check-and-store-one-region", ld.Pos(), "the sequence id is compared with a commitSeq read under stream.mu, and the lock is kept until the store: two committers cannot both pass the test and store out of order"+ifs(!okR, " ("+whyR+")"))
 			}
 			r.Ob(okG, name+"|monotone", ci.Pos(), "commitSeq never moves backwards: the store is control-dependent on event.SeqID >= commitSeq; guards: "+c.clausesString(c.guards(fn)[ci.Block()]))
-			okL, why := c.heldInterproc(ci, lockRef{fn.Params[0], ".mu"}, 2)
+			okL, why := c.heldInterproc(ci, lockRef{lockRoot, ".mu"}, 2)
 			if okL {
 				why = "commitSeq store under stream.mu"
 			}
